@@ -13,6 +13,8 @@ class GzipMiddleware(Middleware):
 
     def request(self, next, request):
         resp = next()
+        if not hasattr(resp, 'content_encoding'):
+            return resp  # e.g., HTTPExceptions, which are BaseResponses
         # TODO: shortcut redirects/304s/responses without content?
         resp.vary.add('Accept-Encoding')
         if resp.content_encoding or not request.accept_encodings['gzip']:
